@@ -20,8 +20,10 @@
      declares, and -- unless it passes data="$expr" -- all the callee's
      required params (explicitly, or through data="all" for the params the
      caller itself declares).
-   * index/isFirst/isLast($x ...) needs an enclosing loop over x (the renderer
-     reads that loop's counters; needed for the "no unbound lookup" clause).
+   * index/isFirst/isLast take exactly one argument, a plain variable $x (no
+     accesses) of an enclosing loop over x (the renderer reads that loop's
+     counters; needed for the "no unbound lookup" clause; any other argument
+     list makes the renderer panic and soyjs.Write fail: C14-loopfunc-shape).
    * A {@param} tag anywhere but at the head of the template body is an error;
      a template declares soydoc params or header params, not both.
 
@@ -82,7 +84,7 @@ Definition call_ok (name : bstr) (alldata hasdata : bool) (pkeys : list (option 
 
 Definition loopfunc_ok (name : bstr) (arg0 : option bstr) (L : list bstr) : bool :=
   negb (contains loop_func_names name)
-  || match arg0 with Some key => contains L key | None => true end.
+  || match arg0 with Some key => contains L key | None => false end.
 
 Definition wfun := list bstr -> list bstr -> bool.   (* G: lets and loop variables in scope; L: enclosing loops *)
 
